@@ -19,13 +19,15 @@ def run(ctx):
                 'evaluation function (bootstrapping variants, key switch, extraction, both external products, decomposition, blind rotation, monomial multiplication). distinct = distinct case lines')
     ctx.assumptions = ['the Lagrange-domain key image is read through the implementation object constructed in place over the public structure (first member = coefficient pointer) in all three back-end families']
     ctx.prove()
-    variants = [('spqlios-fma', 'optim')] + ([('nayuki-portable', 'optim'), ('fftw', 'optim'), ('spqlios-fma', 'debug')] if thorough else [])
+    # the debug build (assertions and debug-only code paths compiled in) runs in the quick tier too, on the small custom key set
+    variants = [('spqlios-fma', 'optim')] + ([('nayuki-portable', 'optim'), ('fftw', 'optim'), ('spqlios-fma', 'debug')] if thorough else [('spqlios-fma', 'debug')])
     specs = [[128, 0, 0, 0, 0, 0, 0, 0, 0]] + ([[80, 0, 0, 0, 0, 0, 0, 0, 0], [0, 12, 2, 2, 10, 4, 4, 32768, 33554432]] if thorough else [[0, 9, 1, 2, 10, 8, 2, 32768, 33554432]])
     n_alias = 0
     for (be, bu) in variants:
         exe = vlib.build_harness('eval_drv.cpp', vlib.build_lib(bu), be, bu)
         bexe = vlib.build_harness('boot_drv.cpp', vlib.build_lib(bu), be, bu)
         for si, sp in enumerate(specs):
+            if bu == 'debug' and not thorough and sp[0] != 0: continue
             spec = fmt(sp + [ctx.seed * 10 + si])
             g0 = ints(vlib.run_lines(bexe, ['fullkey ' + spec], timeout=1800)[0]); n = g0[0]; s = g0[7:7 + n]
             lines = []; meta = []
